@@ -2,7 +2,7 @@ use std::collections::HashMap;
 use std::path;
 use std::result::Result;
 
-use tokio::io::{AsyncBufReadExt, AsyncReadExt};
+use tokio::io::AsyncReadExt;
 use tokio_stream::StreamExt;
 
 use crate::core::error::MonorailError;
@@ -137,6 +137,23 @@ pub(crate) async fn git_cmd_rev_parse(
     }
 }
 
+// Reads `-z` output of git: paths are terminated by NUL and printed verbatim. Without
+// `-z` git prints one path per line and C-quotes any path containing "unusual"
+// characters (non-ASCII bytes, quotes, backslashes, control characters).
+async fn read_nul_separated_changes(
+    mut stdout: tokio::process::ChildStdout,
+) -> Result<Vec<Change>, MonorailError> {
+    let mut data = vec![];
+    stdout.read_to_end(&mut data).await?;
+    Ok(data
+        .split(|b| *b == 0)
+        .filter(|name| !name.is_empty())
+        .map(|name| Change {
+            name: String::from_utf8_lossy(name).into_owned(),
+        })
+        .collect())
+}
+
 pub(crate) async fn git_cmd_other_changes(
     git_path: &str,
     work_path: &path::Path,
@@ -144,16 +161,12 @@ pub(crate) async fn git_cmd_other_changes(
     let mut child = get_git_cmd_child(
         git_path,
         work_path,
-        &["ls-files", "--others", "--exclude-standard"],
+        &["ls-files", "--others", "--exclude-standard", "-z"],
     )
     .await?;
     let mut out = vec![];
     if let Some(stdout) = child.stdout.take() {
-        let reader = tokio::io::BufReader::new(stdout);
-        let mut lines = reader.lines();
-        while let Some(line) = lines.next_line().await? {
-            out.push(Change { name: line });
-        }
+        out = read_nul_separated_changes(stdout).await?;
     }
     let mut stderr_string = String::new();
     if let Some(mut stderr) = child.stderr.take() {
@@ -181,7 +194,7 @@ pub(crate) async fn git_cmd_diff_changes(
     begin: Option<&str>,
     end: Option<&str>,
 ) -> Result<Vec<Change>, MonorailError> {
-    let mut args = vec!["diff", "--name-only", "--find-renames"];
+    let mut args = vec!["diff", "--name-only", "--find-renames", "-z"];
     if let Some(begin) = begin {
         args.push(begin);
     }
@@ -191,11 +204,7 @@ pub(crate) async fn git_cmd_diff_changes(
     let mut child = get_git_cmd_child(git_path, work_path, &args).await?;
     let mut out = vec![];
     if let Some(stdout) = child.stdout.take() {
-        let reader = tokio::io::BufReader::new(stdout);
-        let mut lines = reader.lines();
-        while let Some(line) = lines.next_line().await? {
-            out.push(Change { name: line });
-        }
+        out = read_nul_separated_changes(stdout).await?;
     }
     let mut stderr_string = String::new();
     if let Some(mut stderr) = child.stderr.take() {
